@@ -10,10 +10,13 @@
    the decrypted flag from the empty database.  [first_fire v k r] is the earliest log of the
    view up to block k that lies after the registration block of r, not after its expiry, and
    matches; [should_fire v a k f] says f is the fired row of a registration of blocks [a, k]
-   whose first_fire exists.  [tuniverse_ok] bundles the C15 well-formedness of the views, the D9
-   exclusion (no registration below the first synced block) and the D10 exclusion
-   [no_early_match r]: no trigger has a matching log within r - 1 blocks after its registration
-   block (r the range limit; vacuous for r = 1). *)
+   whose first_fire exists.  [tuniverse_ok] bundles the C15 well-formedness of the views and the D9
+   exclusion (no registration below the first synced block).  The D10 exclusion is exactly the
+   D10 shape: [td10_free fl tginit history] says that no Sync of the history goes through a range
+   [s, e] (the ranges GetSyncRanges gives it from its start position, after a possible rollback)
+   in which a trigger is registered and a matching log of its window lies later in the same range
+   ([range_clear]).  Every Sync takes two fault streams (one entry per RPC call, one per database
+   operation), as in C15. *)
 From Coq Require Import List NArith ZArith Bool Lia String.
 From Verif Require Import Lib.Bytes Model.Syncer Model.TriggerSync
      Proofs.SyncerLemmas Proofs.Syncer Proofs.SyncerInstances
@@ -49,24 +52,28 @@ Example C16_spec_nonvacuous :
   first_fire tag_match d10_view 3 (mkpev 3 (hx "03") 0 0 (IReg reg1)) = None.
 Proof. vm_compute. split; reflexivity. Qed.
 
-(* Exactness, for every range limit, under the exclusions.  For all matchers, all histories of
-   Syncs (any head sequences with repeats, gaps, steps back and forks that respect the
-   assumption on heads, any iteration orders of the processor map) and flag updates: whenever
-   the recorded position (k, h) lies on the current view, (1) every key has at most one fired
-   row, (2) every fired row is the chain-derived one: its trigger is registered on the view in
-   [first synced block, k] and the row records the earliest matching log of its window, and
-   (3) every registered trigger that is not marked decrypted and has a matching log in its
-   window up to k has its fired row.
-   _partial: [tuniverse_ok] contains the D10 exclusion for the flavour's range limit (and the
-   D9 exclusion); without the D10 exclusion the statement is false (C16_batching_refuted). *)
+(* Exactness, for every range limit.  For all matchers, all histories of Syncs (any head sequences
+   with repeats, gaps, steps back and forks that respect the assumption on heads, any iteration
+   orders of the processor map, any RPC / database failures) and flag updates: whenever the
+   recorded position (k, h) lies on the current view, (0) the registration table is exactly the
+   view's admissible registrations of [first synced block, k] (the C15 statement, here with both
+   processors running), (1) every key has at most one fired row, (2) every fired row is the
+   chain-derived one: its trigger is registered on the view in that stretch and the row records
+   the earliest matching log of its window, and (3) every registered trigger that is not marked
+   decrypted and has a matching log in its window up to k has its fired row.
+   _partial: the hypothesis [td10_free] excludes exactly the D10 shape (a registration and a later
+   matching log of its window inside one processed range) and [tuniverse_ok] contains the D9
+   exclusion; without td10_free the statement is false (C16_batching_refuted). *)
 Theorem C16_fired_exact_partial :
   forall (LogT : Type) (match_log : bytes -> LogT -> bool) (fl : flavour),
     0 < fl_range fl -> 0 <= fl_depth fl -> 0 <= fl_first_start fl ->
-  forall (ops : list (top LogT)) (v : view (titem LogT)) (orders : list bool),
-    let history := ops ++ [TSync v orders] in
-    tuniverse_ok match_log fl (top_views history) -> theads_ok match_log fl tginit history ->
+  forall (ops : list (top LogT)) (v : view (titem LogT)) (orders : list bool) (rpc db : list fault),
+    let history := ops ++ [TSync v orders rpc db] in
+    tuniverse_ok fl (top_views history) -> theads_ok match_log fl tginit history ->
+    td10_free match_log fl tginit history ->
     let st := tg_st (tgrun match_log fl history) in
     forall k h b, st_status (ts_core st) = Some (k, h) -> block_at v k = Some b -> bk_hash b = h ->
+      st_rows (ts_core st) = rows_of t_admissible v (fl_first_start fl) k /\
       NoDup (map f_key (ts_fired st)) /\
       (forall f, In f (ts_fired st) -> should_fire match_log v (fl_first_start fl) k f) /\
       (forall r l, In r (rows_of t_admissible v (fl_first_start fl) k) ->
@@ -75,38 +82,50 @@ Theorem C16_fired_exact_partial :
 Proof. exact trigger_exact. Qed.
 Print Assumptions C16_fired_exact_partial.
 
+(* A condition on the chains alone that implies td10_free for every history over them: no trigger
+   has a matching log within (range limit - 1) blocks after its registration block. *)
+Theorem C16_d10_free_from_chains :
+  forall (LogT : Type) (match_log : bytes -> LogT -> bool) (fl : flavour),
+    0 < fl_range fl -> 0 <= fl_depth fl -> 0 <= fl_first_start fl ->
+  forall ops : list (top LogT),
+    tuniverse_ok fl (top_views ops) ->
+    (forall u, In u (top_views ops) -> no_early_match match_log (fl_range fl) u) ->
+    theads_ok match_log fl tginit ops -> td10_free match_log fl tginit ops.
+Proof. exact no_early_history. Qed.
+Print Assumptions C16_d10_free_from_chains.
+
 Example C16_fired_exact_nonvacuous :
   (* the hypotheses hold for a history with a reorganisation (fork_history, range limit 1) *)
-  tuniverse_ok tag_match fork_flavour (top_views fork_history) /\
+  tuniverse_ok fork_flavour (top_views fork_history) /\
   theads_ok tag_match fork_flavour tginit fork_history /\
+  td10_free tag_match fork_flavour tginit fork_history /\
   no_decrypt bytes fork_history /\
   st_status (ts_core (tg_st (tgrun tag_match fork_flavour fork_history))) = Some (6, hx "b6").
-Proof. destruct fork_hypotheses as (H1 & H2 & H3). split; [exact H1|]. split; [exact H2|]. split; [exact H3|]. vm_compute. reflexivity. Qed.
+Proof. destruct fork_hypotheses as (H1 & H2 & H3 & H4). repeat (split; [assumption|]). vm_compute. reflexivity. Qed.
 
-(* Block by block (range limit 1: every range is one block, whatever the heads): the same
-   statement without any D10 exclusion. *)
+(* Block by block (range limit 1: every range is one block, whatever the heads and failures): the
+   same statement without any D10 exclusion. *)
 Theorem C16_block_by_block_exact :
   forall (LogT : Type) (match_log : bytes -> LogT -> bool) (sync_start depth : Z),
     0 <= sync_start -> 0 <= depth ->
-  forall (ops : list (top LogT)) (v : view (titem LogT)) (orders : list bool),
+  forall (ops : list (top LogT)) (v : view (titem LogT)) (orders : list bool) (rpc db : list fault),
     let fl := multi_flavour sync_start depth 1 in
-    let history := ops ++ [TSync v orders] in
-    (forall u, In u (top_views history) ->
-               view_ok t_key t_admissible fl u /\ quiet_before t_admissible u (sync_start + 1)) ->
-    (forall u w, In u (top_views history) -> In w (top_views history) -> hash_determines u w) ->
+    let history := ops ++ [TSync v orders rpc db] in
+    tuniverse_ok fl (top_views history) ->
     theads_ok match_log fl tginit history ->
     let st := tg_st (tgrun match_log fl history) in
     forall k h b, st_status (ts_core st) = Some (k, h) -> block_at v k = Some b -> bk_hash b = h ->
+      st_rows (ts_core st) = rows_of t_admissible v (sync_start + 1) k /\
       NoDup (map f_key (ts_fired st)) /\
       (forall f, In f (ts_fired st) -> should_fire match_log v (sync_start + 1) k f) /\
       (forall r l, In r (rows_of t_admissible v (sync_start + 1) k) ->
                    has_key (t_key (pe_ev r)) (ts_decrypted st) = false ->
                    first_fire match_log v k r = Some l -> In (fire_row r l) (ts_fired st)).
 Proof.
-  intros LogT match_log sync_start depth Hs Hd ops v orders fl history HU Hdet Hok.
-  apply (trigger_exact LogT match_log fl); simpl; try lia; try exact Hok.
-  split; [|exact Hdet]. intros u Hu. destruct (HU u Hu) as [H1 H2]. split; [exact H1|]. split; [exact H2|].
-  apply no_early_match_one.
+  intros LogT match_log sync_start depth Hs Hd ops v orders rpc db fl history HU Hok.
+  apply (trigger_exact LogT match_log fl); simpl; try lia; try assumption.
+  apply (no_early_history LogT match_log fl); simpl; try lia; try assumption.
+  intros u _. apply no_early_match_one.
 Qed.
 Print Assumptions C16_block_by_block_exact.
 
@@ -121,19 +140,19 @@ Proof.
 Qed.
 
 (* Batching independence.  Two histories over possibly different head sequences, partitions,
-   range limits, reorg depths and map iteration orders, without flag updates, both ending on
-   the view v with the same canonical position: the fired tables contain the same rows.
-   _partial: each history must satisfy the D10 exclusion for its own range limit (it is part
-   of tuniverse_ok); C16_batching_refuted shows the statement fails without it. *)
+   range limits, reorg depths, map iteration orders and failures, without flag updates, both
+   ending on the view v with the same canonical position: the fired tables contain the same rows.
+   _partial: neither history may go through a range of the D10 shape (td10_free);
+   C16_batching_refuted shows the statement fails without that. *)
 Theorem C16_batching_independent_partial :
   forall (LogT : Type) (match_log : bytes -> LogT -> bool) (fl1 fl2 : flavour)
-         (ops1 ops2 : list (top LogT)) (v : view (titem LogT)) (o1 o2 : list bool),
+         (ops1 ops2 : list (top LogT)) (v : view (titem LogT)) (o1 o2 : list bool) (rpc1 db1 rpc2 db2 : list fault),
     0 < fl_range fl1 -> 0 <= fl_depth fl1 -> 0 <= fl_first_start fl1 ->
     0 < fl_range fl2 -> 0 <= fl_depth fl2 -> fl_first_start fl2 = fl_first_start fl1 ->
-    let h1 := ops1 ++ [TSync v o1] in
-    let h2 := ops2 ++ [TSync v o2] in
-    tuniverse_ok match_log fl1 (top_views h1) -> theads_ok match_log fl1 tginit h1 -> no_decrypt LogT h1 ->
-    tuniverse_ok match_log fl2 (top_views h2) -> theads_ok match_log fl2 tginit h2 -> no_decrypt LogT h2 ->
+    let h1 := ops1 ++ [TSync v o1 rpc1 db1] in
+    let h2 := ops2 ++ [TSync v o2 rpc2 db2] in
+    tuniverse_ok fl1 (top_views h1) -> theads_ok match_log fl1 tginit h1 -> td10_free match_log fl1 tginit h1 -> no_decrypt LogT h1 ->
+    tuniverse_ok fl2 (top_views h2) -> theads_ok match_log fl2 tginit h2 -> td10_free match_log fl2 tginit h2 -> no_decrypt LogT h2 ->
     forall k h b,
       st_status (ts_core (tg_st (tgrun match_log fl1 h1))) = Some (k, h) ->
       st_status (ts_core (tg_st (tgrun match_log fl2 h2))) = Some (k, h) ->
@@ -144,17 +163,18 @@ Print Assumptions C16_batching_independent_partial.
 
 (* D10 on the model: one chain (registration in block 3, matching log in block 4), one Sync to
    head 5, once with range limit 1 and once with range limit 10.  All hypotheses other than the
-   D10 exclusion hold for both, both end at the canonical position (5, hash 5); with limit 1
-   the trigger has fired (the chain-derived row), with limit 10 the fired table is empty. *)
+   D10 exclusion hold for both (the limit-10 Sync goes through the range [1, 5], which has the
+   D10 shape), both end at the canonical position (5, hash 5); with limit 1 the trigger has
+   fired (the chain-derived row), with limit 10 the fired table is empty. *)
 Theorem C16_batching_refuted :
-  d10_hyps 1 /\ d10_hyps 10 /\
+  d10_hyps 1 /\ d10_hyps 10 /\ ~ td10_free tag_match (d10_flavour 10) tginit d10_history /\
   st_status (ts_core (tg_st (tgrun tag_match (d10_flavour 1) d10_history))) = Some (5, hx "05") /\
   st_status (ts_core (tg_st (tgrun tag_match (d10_flavour 10) d10_history))) = Some (5, hx "05") /\
   block_at d10_view 5 = Some (mkblk (hx "05") []) /\
   List.length (ts_fired (tg_st (tgrun tag_match (d10_flavour 1) d10_history))) = 1%nat /\
   ts_fired (tg_st (tgrun tag_match (d10_flavour 10) d10_history)) = [] /\
   should_fire tag_match d10_view 1 5 (mkfired (trigger_key reg1) 4 (hx "04") 0 0).
-Proof. exact batching_refuted. Qed.
+Proof. destruct batching_refuted as (H1 & H2 & H3). split; [exact H1|]. split; [exact H2|]. split; [exact d10_shape_present|exact H3]. Qed.
 Print Assumptions C16_batching_refuted.
 
 (* At most once: in every reachable state, whatever the chain, the heads, the orders and the
@@ -178,8 +198,8 @@ Proof. exact rollback_unfires. Qed.
 Print Assumptions C16_rollback_unfires.
 
 Example C16_rollback_unfires_nonvacuous :
-  ts_fired (tg_st (tgrun tag_match fork_flavour [TSync fork_a []])) = [mkfired (trigger_key reg1) 4 (hx "a4") 0 0] /\
-  ts_fired (tg_st (tgrun tag_match fork_flavour [TSync fork_a []; TSync fork_b []])) = [] /\
+  ts_fired (tg_st (tgrun tag_match fork_flavour [TSync fork_a [] [] []])) = [mkfired (trigger_key reg1) 4 (hx "a4") 0 0] /\
+  ts_fired (tg_st (tgrun tag_match fork_flavour [TSync fork_a [] [] []; TSync fork_b [] [] []])) = [] /\
   ts_fired (tg_st (tgrun tag_match fork_flavour fork_history)) = [mkfired (trigger_key reg1) 6 (hx "b6") 0 0].
 Proof. exact fork_unfires_and_refires. Qed.
 
@@ -187,13 +207,13 @@ Proof. exact fork_unfires_and_refires. Qed.
    influence the result of a Sync: state, result and everything else are equal. *)
 Theorem C16_oracle_independent :
   forall (LogT : Type) (match_log : bytes -> LogT -> bool) (fl : flavour) (nd : node (titem LogT))
-         (st : tstate LogT) (o1 o2 : list bool),
-    tsync match_log fl nd st o1 = tsync match_log fl nd st o2.
+         (st : tstate LogT) (o1 o2 : list bool) (rpc db : list fault),
+    tsync match_log fl nd st o1 rpc db = tsync match_log fl nd st o2 rpc db.
 Proof. exact oracle_independent. Qed.
 Print Assumptions C16_oracle_independent.
 
 Example C16_oracle_independent_nonvacuous :
-  tsync tag_match (d10_flavour 1) (node_of_view d10_view) tinit [true; false; true; true; false]
-  = tsync tag_match (d10_flavour 1) (node_of_view d10_view) tinit [] /\
-  List.length (ts_fired (fst (fst (tsync tag_match (d10_flavour 1) (node_of_view d10_view) tinit [])))) = 1%nat.
+  tsync tag_match (d10_flavour 1) (node_of_view d10_view) tinit [true; false; true; true; false] [] []
+  = tsync tag_match (d10_flavour 1) (node_of_view d10_view) tinit [] [] [] /\
+  List.length (ts_fired (fst (fst (tsync tag_match (d10_flavour 1) (node_of_view d10_view) tinit [] [] [])))) = 1%nat.
 Proof. vm_compute. split; reflexivity. Qed.
